@@ -35,6 +35,7 @@ def dy_bins(rng):
 
 class C14(Hist1Prop):
     ID = "C14"
+    GEN_TIE = ["statistics"]     # definitions regenerated from physt/statistics.py (harness/gen_tie.py)
     N_QUICK = 300
     N_THOROUGH = 8000
     RULE = ("in-range dyadic data and weights entered through h1(), fill() and fill_n() (random chunkings), sums of partial "
